@@ -458,6 +458,11 @@ def rule_j(ctx: Ctx) -> None:
                 if bool_eval(e, env):
                     tail_alone = True
                     break
+            # ... and it is the tail of *any* child: the walk over the children is not a slice (text after the last child counts)
+            for comp in ast.walk(e):
+                if isinstance(comp, (ast.GeneratorExp, ast.ListComp)) and '.tail' in text(comp):
+                    if any(isinstance(gen.iter, ast.Subscript) for gen in comp.generators):
+                        tail_alone = False
         ctx.ob(rule, f'XsdGroup.{meth}: character data after a child (a tail) is refused in element-only content like the text before the first child', f.loc(reps[0].ast), tail_alone,
                '' if tail_alone else 'the report depends on the leading text only: encode({"a": 1, "#1": "junk"}) emits <r><a>1</a>junk</r> in strict mode, a document the same schema rejects',
                key=f'XsdGroup.{meth}|cdata-tails')
